@@ -282,3 +282,153 @@ func runC08Is(c *Ctx, r *Report, rs *RetSum, reg []*BIFEntry) {
 	}
 	r.Floor("R08.11", "asserting_* wrappers", nass, 18)
 }
+
+// ---- R08.12 -----------------------------------------------------------------
+// The short-circuit operators && and || follow the documented table of the
+// null-data reference.
+func c08ShortCircuit(c *Ctx, r *Report) {
+	r.Rule("R08.12", "&& and || follow the documented table: the Evaluate methods of LogicalANDOperatorNode and LogicalOROperatorNode, evaluated abstractly with their two operands ranging over true, false, 3 (a non-boolean), empty, absent and error, give in every cell the result kind / truth value printed in the '(&&)' and '(||)' tables of reference-main-null-data.md")
+	doc, err := c.ReadRepoFile("docs/src/reference-main-null-data.md")
+	if err != nil {
+		r.Undecided("R08.12", "null-data reference", "", err.Error())
+		return
+	}
+	// parse the two tables
+	tables := map[string]map[string]map[string]string{}
+	cur := ""
+	var cols []string
+	for _, line := range strings.Split(string(doc), "\n") {
+		if strings.HasPrefix(line, "(&&)") || strings.HasPrefix(line, "(||)") {
+			cur = line[:4]
+			cols = strings.Fields(strings.ReplaceAll(line[4:], "|", " "))
+			tables[cur] = map[string]map[string]string{}
+			continue
+		}
+		f := strings.Fields(strings.ReplaceAll(line, "|", " "))
+		if len(f) == 0 {
+			cur = ""
+			continue
+		}
+		if cur == "" || strings.HasPrefix(f[0], "---") {
+			continue
+		}
+		if len(f) == len(cols)+1 {
+			row := map[string]string{}
+			for i, cname := range cols {
+				row[cname] = f[i+1]
+			}
+			tables[cur][f[0]] = row
+		}
+	}
+	operand := func(name string) AV {
+		switch name {
+		case "true":
+			return AV{T: 'm', MK: K_BOOL, Toks: tokset("TRUE")}
+		case "false":
+			return AV{T: 'm', MK: K_BOOL, Toks: tokset("FALSE")}
+		case "3":
+			return AV{T: 'm', MK: K_INT, Toks: tokset("INT")}
+		case "(empty)":
+			return AV{T: 'm', MK: K_VOID, Toks: tokset("VOID")}
+		case "(absent)":
+			return AV{T: 'm', MK: K_ABSENT, Toks: tokset("ABSENT")}
+		case "(error)":
+			return AV{T: 'm', MK: K_ERROR, Toks: tokset("ERROR")}
+		}
+		return AV{}
+	}
+	rs := NewRetSum(c)
+	n := 0
+	for _, op := range []struct{ sym, typ string }{{"(&&)", "LogicalANDOperatorNode"}, {"(||)", "LogicalOROperatorNode"}} {
+		tab := tables[op.sym]
+		if len(tab) != 6 {
+			r.Undecided("R08.12", "table "+op.sym, "docs/src/reference-main-null-data.md", fmt.Sprintf("documented table not found or not 6x6 (%d rows)", len(tab)))
+			continue
+		}
+		fn := c.SSAFunc(c.LookupMethod("pkg/dsl/cst", op.typ, "Evaluate"))
+		if fn == nil {
+			r.Undecided("R08.12", op.typ, "", "Evaluate method not found")
+			continue
+		}
+		// the two operand evaluations, in source order
+		var sites []*ssa.Call
+		for _, b := range fn.Blocks {
+			for _, in := range b.Instrs {
+				if call, ok := in.(*ssa.Call); ok && call.Call.IsInvoke() && call.Call.Method.Name() == "Evaluate" {
+					sites = append(sites, call)
+				}
+			}
+		}
+		// which operand does a site evaluate: field a or b of the node
+		fieldOf := func(call *ssa.Call) string {
+			if _, name, ok := fieldLoadName(call.Call.Value); ok {
+				return name
+			}
+			return ""
+		}
+		for _, an := range []string{"true", "false", "3", "(empty)", "(absent)", "(error)"} {
+			for _, bn := range []string{"true", "false", "3", "(empty)", "(absent)", "(error)"} {
+				n++
+				key := fmt.Sprintf("%s %s %s", an, strings.Trim(op.sym, "()"), bn)
+				ke := NewKindEval(c, rs)
+				a, b := operand(an), operand(bn)
+				a.Toks.Add("A")
+				b.Toks.Add("B")
+				ke.InvokeOracle = func(x *ssa.Call) (AV, bool) {
+					switch fieldOf(x) {
+					case "a":
+						return a, true
+					case "b":
+						return b, true
+					}
+					return AV{}, false
+				}
+				args := make([]AV, len(fn.Params))
+				for i, p := range fn.Params {
+					args[i] = avUnknownFor(p.Type())
+				}
+				res := ke.Eval(fn, args)
+				want := tab[an][bn]
+				if res.Bailed || len(res.Results) == 0 {
+					r.Undecided("R08.12", key, c.Rel(fn.Pos()), "kind evaluation gave up")
+					continue
+				}
+				t := res.Results[0].Toks
+				got := describeSC(t, an, bn)
+				r.Check(got == want, "R08.12", key, c.Rel(fn.Pos()), got,
+					fmt.Sprintf("%s.Evaluate gives %s for %s %s %s (tokens %s); the null-data reference tabulates %s", op.typ, got, an, strings.Trim(op.sym, "()"), bn, t, want))
+			}
+		}
+	}
+	r.Floor("R08.12", "cells of the && and || tables", n, 72)
+}
+
+// describeSC renders an abstract result in the vocabulary of the documented table.
+func describeSC(t TokSet, an, bn string) string {
+	ident := func(name string) string {
+		switch name {
+		case "3":
+			return "3"
+		}
+		return name
+	}
+	has := func(x string) bool { return t.Has(x) }
+	kinds := 0
+	out := "?"
+	if has("A") && !has("B") {
+		return ident(an)
+	}
+	if has("B") && !has("A") {
+		return ident(bn)
+	}
+	for _, k := range []struct{ tok, name string }{{"TRUE", "true"}, {"FALSE", "false"}, {"ABSENT", "(absent)"}, {"ERROR", "(error)"}, {"VOID", "(empty)"}} {
+		if has(k.tok) {
+			kinds++
+			out = k.name
+		}
+	}
+	if kinds == 1 {
+		return out
+	}
+	return "ambiguous" + t.String()
+}
